@@ -445,6 +445,7 @@ Proof.
     destruct (good_variant _ _ _ Hg) as (Hd & Htok & Hgx).
     cbn [marshal_t] in H. cbv zeta in H. cbn [relabel] in Hb |- *.
     destruct (N.ltb_spec 255 (len (to_str t))) as [|Hl]; [discriminate|].
+    destruct (is_ok (validate_signature (to_str t))) eqn:Evs; [|discriminate].
     specialize (IH (depth + 1) Hgx _ _ H). cbn [mbuf mfds] in IH.
     destruct (relabel x (mfds c)) as [x' n'] eqn:Er. cbn [fst snd] in *.
     cbn [encodable]. apply N.ltb_lt in Hd. rewrite Hd, Htok. cbn [andb].
